@@ -542,12 +542,28 @@ mkfunc(struct decl *decl, char *name, struct type *t, struct scope *s)
 	return f;
 }
 
+static void
+checklabels(struct func *f)
+{
+	struct gotolabel *g;
+	size_t i;
+
+	for (i = 0; i < f->gotos.cap; ++i) {
+		if (!f->gotos.keys[i].str)
+			continue;
+		g = f->gotos.vals[i];
+		if (!g->defined)
+			error(&tok.loc, "label '%s' is used but not defined", (char *)f->gotos.keys[i].str);
+	}
+}
+
 void
 delfunc(struct func *f)
 {
 	struct block *b;
 	struct inst **inst;
 
+	checklabels(f);
 	while (b = f->start) {
 		f->start = b->next;
 		arrayforeach (&b->insts, inst)
@@ -1275,6 +1291,7 @@ emitfunc(struct func *f, bool global)
 	struct decl *p;
 	struct value *v;
 
+	checklabels(f);
 	if (f->end->jump.kind == JUMP_NONE) {
 		v = NULL;
 		/* implicitly return 0 from main if we reach the end of the function */
